@@ -113,6 +113,8 @@ func ityOf(t types.Type) string {
 	return ""
 }
 
+var cmpNames = map[token.Token]string{token.EQL: "Ceq", token.NEQ: "Cne", token.LSS: "Clt", token.LEQ: "Cle", token.GTR: "Cgt", token.GEQ: "Cge"}
+
 var binNames = map[token.Token]string{
 	token.ADD: "Add", token.SUB: "Sub", token.MUL: "Mul", token.QUO: "Quo", token.REM: "Rem",
 	token.AND: "And", token.OR: "Or", token.XOR: "Xor", token.AND_NOT: "AndNot", token.SHL: "Shl", token.SHR: "Shr",
@@ -149,6 +151,17 @@ func (s *symEnv) term(x ast.Expr) (string, error) {
 		}
 		return "", fmt.Errorf("unary %s", x.Op)
 	case *ast.BinaryExpr:
+		if cn, ok := cmpNames[x.Op]; ok {
+			l, err := s.term(x.X)
+			if err != nil {
+				return "", err
+			}
+			r, err := s.term(x.Y)
+			if err != nil {
+				return "", err
+			}
+			return fmt.Sprintf("(ocmp %s %s %s)", cn, l, r), nil
+		}
 		name, ok := binNames[x.Op]
 		if !ok {
 			return "", fmt.Errorf("binary operator %s", x.Op)
@@ -278,6 +291,8 @@ func (s *symEnv) stmt(st ast.Stmt) (symStop, error) {
 					s.locals[o] = t
 				} else if ityOf(o.Type()) != "" {
 					s.locals[o] = "(Some 0%Z)"
+				} else if b, ok := o.Type().Underlying().(*types.Basic); ok && b.Kind() == types.Bool {
+					s.locals[o] = "(Some false)"
 				}
 			}
 		}
@@ -369,6 +384,12 @@ func (s *symEnv) stmt(st ast.Stmt) (symStop, error) {
 		}
 		c := s.e.eval(st.Cond)
 		if c == nil {
+			if id, ok := st.Cond.(*ast.Ident); ok {
+				if t, ok := s.locals[s.e.obj(id)]; ok && id.Name == "cond" {
+					s.result = t
+					return symDone, nil
+				}
+			}
 			return symGo, fmt.Errorf("condition %s is not constant", types.ExprString(st.Cond))
 		}
 		if constant.BoolVal(c) {
@@ -586,6 +607,79 @@ func init() {
 				fmt.Fprintf(b, "  if k =? %d then Some %s else (* %s *)\n", kinds[kn], s.result, kn)
 			}
 			fmt.Fprintf(b, "  None.\n\n")
+		}
+		// integer conditions of OpIfInt
+		{
+			cc := cases["OpIfInt"]
+			if cc == nil {
+				return fmt.Errorf("VM.run: case OpIfInt not found")
+			}
+			conds := []string{"ConditionZero", "ConditionNotZero", "ConditionEqual", "ConditionNotEqual", "ConditionLess", "ConditionLessEqual", "ConditionGreater", "ConditionGreaterEqual",
+				"ConditionLessU", "ConditionLessEqualU", "ConditionGreaterU", "ConditionGreaterEqualU"}
+			fmt.Fprintf(b, "(* runtime.Condition numbering *)\n")
+			cval := map[string]int64{}
+			for _, cn := range conds {
+				c, ok := sc.Lookup(cn).(*types.Const)
+				if !ok {
+					return fmt.Errorf("runtime.%s not found", cn)
+				}
+				cval[cn] = i64(c.Val())
+				fmt.Fprintf(b, "Definition gen_%s : Z := %d.\n", cn, cval[cn])
+			}
+			fmt.Fprintf(b, "\n(* VM.run OpIfInt: the value of `cond` for Condition(b) = cnd; ra = vm.int(a), rc = vm.intk(c, op<0) *)\nDefinition gen_ifint (cnd : Z) (ra rc : option Z) : option (option bool) :=\n")
+			for _, cn := range conds {
+				s := &symEnv{e: newEnv(rt), locals: map[types.Object]string{}}
+				s.e.byname["b"] = constant.MakeInt64(cval[cn])
+				s.e.byname["op"] = constant.MakeInt64(opval["OpIfInt"])
+				if _, err := s.run(cc.Body); err != nil {
+					return fmt.Errorf("VM.run case OpIfInt, %s: %v", cn, err)
+				}
+				if s.result == "" {
+					return fmt.Errorf("VM.run case OpIfInt, %s: `if cond` not reached", cn)
+				}
+				fmt.Fprintf(b, "  if cnd =? %d then Some %s else (* %s *)\n", cval[cn], s.result, cn)
+			}
+			fmt.Fprintf(b, "  None.\n\n")
+			// emitComparison: operator x kind -> condition
+			fd := findMethod(cp, "emitter", "emitComparison")
+			if fd == nil {
+				return fmt.Errorf("emitter.emitComparison not found")
+			}
+			ap := cp.Imports["github.com/open2b/scriggo/ast"]
+			if ap == nil {
+				return fmt.Errorf("package ast not imported by the compiler")
+			}
+			for _, on := range []string{"OperatorEqual", "OperatorNotEqual", "OperatorLess", "OperatorLessEqual", "OperatorGreater", "OperatorGreaterEqual"} {
+				oc, ok := ap.Types.Scope().Lookup(on).(*types.Const)
+				if !ok {
+					return fmt.Errorf("ast.%s not found", on)
+				}
+				fmt.Fprintf(b, "Definition gen_select_cmp_%s : list (Z * Z) := [", on)
+				for i, kn := range intKindNames {
+					e := newEnv(cp)
+					bindParams(e, fd, map[string]constant.Value{"op": oc.Val(), "ky": constant.MakeBool(false), "x": constant.MakeInt64(100), "y": constant.MakeInt64(101)})
+					e.byname["tx.Kind()"] = constant.MakeInt64(kinds[kn])
+					e.byname["ty.Kind()"] = constant.MakeInt64(kinds[kn])
+					if k := e.run(fd.Body.List); k != stopNone {
+						return fmt.Errorf("emitComparison(%s, %s): not evaluable: %s", on, kn, e.why)
+					}
+					var cond constant.Value
+					for _, ef := range e.effects {
+						if ef.fn == "em.fb.emitIf" && len(ef.args) >= 3 {
+							cond = ef.args[2]
+						}
+					}
+					if cond == nil {
+						return fmt.Errorf("emitComparison(%s, %s): emitIf call with a constant condition not found", on, kn)
+					}
+					if i > 0 {
+						b.WriteString("; ")
+					}
+					fmt.Fprintf(b, "(%d, %d)", kinds[kn], i64(cond))
+				}
+				b.WriteString("].\n")
+			}
+			b.WriteString("\n")
 		}
 		// instruction selection of the builder
 		sel := []struct{ name, fn string }{{"Add", "emitAdd"}, {"Sub", "emitSub"}, {"SubInv", "emitSubInv"}, {"Mul", "emitMul"}, {"Div", "emitDiv"}, {"Rem", "emitRem"},
